@@ -160,9 +160,9 @@ func c17Gen(r *sim.Rand, tier string) *sim.Case {
 		case "membership":
 			w[2], w[3], w[4] = 8, 3, 2
 		case "faults":
-			w[2], w[5], w[6], w[7], w[8], w[11], w[12] = 6, 4, 3, 3, 3, 2, 3
+			w[2], w[5], w[6], w[7], w[8], w[11], w[12] = 6, 4, 3, 3, 3, 3, 3
 		case "mixed":
-			w[2], w[3], w[4], w[5], w[6], w[7], w[8], w[11], w[12] = 6, 2, 1, 3, 3, 2, 2, 2, 2
+			w[2], w[3], w[4], w[5], w[6], w[7], w[8], w[11], w[12] = 6, 2, 1, 3, 3, 2, 2, 3, 2
 		case "static":
 			w[12] = 3
 		}
@@ -181,7 +181,11 @@ func c17Gen(r *sim.Rand, tier string) *sim.Case {
 		case 3:
 			cs.Ops = append(cs.Ops, sim.Op{K: "rmall", A: []int64{a, int64(r.U64() >> 8)}})
 		case 4:
-			cs.Ops = append(cs.Ops, sim.Op{K: "rmone", A: []int64{a, b}})
+			if r.P(50) {
+				cs.Ops = append(cs.Ops, sim.Op{K: "rmrace", A: []int64{a, b, int64(r.U64() >> 8)}})
+			} else {
+				cs.Ops = append(cs.Ops, sim.Op{K: "rmone", A: []int64{a, b}})
+			}
 		case 5:
 			cs.Ops = append(cs.Ops, sim.Op{K: "part", A: []int64{a, b, int64(r.N(2)), int64(r.N(2))}})
 		case 6:
@@ -197,8 +201,10 @@ func c17Gen(r *sim.Rand, tier string) *sim.Case {
 		case 12:
 			cs.Ops = append(cs.Ops, sim.Op{K: "lostforward", A: []int64{int64(r.U64() >> 8), int64(r.N(nn))}})
 		case 11:
-			if r.P(50) {
+			if r.P(40) {
 				cs.Ops = append(cs.Ops, sim.Op{K: "loss", A: []int64{int64(r.Range(1, 4))}})
+			} else if r.P(50) {
+				cs.Ops = append(cs.Ops, sim.Op{K: "darklaw", A: []int64{a, b, int64(r.U64() >> 8)}})
 			} else {
 				cs.Ops = append(cs.Ops, sim.Op{K: "downlaw", A: []int64{a, int64(r.U64() >> 8)}})
 			}
@@ -575,6 +581,39 @@ func c17Run(c *sim.Ctx) {
 				a.removePeer(b.id)
 				w.hashChecks(op.Arg(0)^op.Arg(1)<<8^int64(i), "removepeer")
 			}
+		case "rmrace":
+			// a peer is removed at one node while requests for subscribers that node owns itself
+			// enter there: removing the peer does not change their owner, so whichever membership
+			// a request sees it is served from this node's pool
+			a, b := pick(op.Arg(0)), pick(op.Arg(1))
+			if !a.live() || a == b || len(a.cfg) < 2 || !a.cfg[b.id] {
+				break
+			}
+			var mine []string
+			for _, s := range w.subs(op.Arg(2)^int64(i)<<6, 24) {
+				if a.p.GetOwner(s) == a.id && len(mine) < 4 {
+					mine = append(mine, s)
+				}
+			}
+			if len(mine) == 0 {
+				break
+			}
+			c.S.Fault("membership.remove-peer-during-requests")
+			errs := make([]error, len(mine))
+			ts := []*simrt.Task{c.S.Spawn("rmpeer@"+a.id, a.node, func() { a.p.RemovePeer(b.id) })}
+			for k, s := range mine {
+				ts = append(ts, c.S.Spawn("alloc@"+a.id, a.node, func() { _, errs[k] = a.p.Allocate(context.Background(), s, nil) }))
+			}
+			c.S.Join(ts...)
+			delete(a.cfg, b.id)
+			for k, s := range mine {
+				if errs[k] != nil && !strings.Contains(errs[k].Error(), "exhausted") {
+					c.Fail("minimal-disruption", "disruption/remove-peer/concurrent-request", "node %q: a request for subscriber %q, which the node owns before and after RemovePeer(%q), failed while the peer was being removed: %v", a.id, s, b.id, errs[k])
+				}
+				c.S.Join(c.S.Spawn("release@"+a.id, a.node, func() { a.p.Release(context.Background(), s) }))
+				c.OpsDone++
+			}
+			w.hashChecks(op.Arg(0)^op.Arg(1)<<8^int64(i), "removepeer")
 		case "rmall":
 			// removing a peer everywhere changes ownership only for subscribers it owned
 			x := pick(op.Arg(0))
@@ -663,6 +702,90 @@ func c17Run(c *sim.Ctx) {
 				c.OpsDone++
 				c.S.Probe("downlaw_checked")
 			}
+		case "darklaw":
+			// one or two peers go dark (their packets are dropped, nothing is refused: every probe
+			// runs into its timeout) for long enough to be marked unhealthy everywhere else; that
+			// changes ownership only for subscribers the dark peers owned
+			x, y := pick(op.Arg(0)), pick(op.Arg(1))
+			// (whatever else was going on is healed first and given time to settle; each remaining
+			// node is then checked on its own view, the peer sets need not agree)
+			if !x.live() || !y.live() || len(w.liveNodes()) < 3 {
+				c.S.Probe("darklaw_skipped_too-few-live-nodes")
+				break
+			}
+			n.HealAll()
+			for k := range n.LoseNext {
+				delete(n.LoseNext, k)
+			}
+			c.S.Sleep(time.Duration(w.thr+2) * w.iv)
+			settled := func(nd *c17node) bool {
+				for _, k := range nd.set() {
+					if k == nd.id {
+						continue
+					}
+					up := false
+					for _, o := range w.liveNodes() {
+						if o.id == k {
+							up = true
+						}
+					}
+					if nd.p.IsPeerHealthy(k) != up {
+						return false
+					}
+				}
+				return true
+			}
+			dark := map[string]bool{x.id: true, y.id: true}
+			subs := w.subs(op.Arg(2), 24)
+			type bk struct{ nd *c17node; own []string }
+			var before []bk
+			for _, nd := range w.liveNodes() {
+				if dark[nd.id] {
+					continue
+				}
+				if !settled(nd) {
+					c.S.Probe("darklaw_node_not_settled")
+					continue
+				}
+				b := bk{nd: nd}
+				for _, s := range subs {
+					b.own = append(b.own, nd.p.VerifHealthyOwner(s))
+				}
+				before = append(before, b)
+			}
+			for _, nd := range w.liveNodes() {
+				for id := range dark {
+					if nd.id != id {
+						n.Partition(nd.id, id, true, false)
+					}
+				}
+			}
+			c.S.Fault("net.blackhole.peers-dark")
+			c.S.Sleep(2 * time.Duration(w.thr+2) * w.iv)
+			for _, b := range before {
+				marked := true
+				for id := range dark {
+					if b.nd.cfg[id] && b.nd.p.IsPeerHealthy(id) {
+						marked = false
+					}
+				}
+				if !marked {
+					c.S.Probe("darklaw_not_marked")
+					continue
+				}
+				for k, s := range subs {
+					after := b.nd.p.VerifHealthyOwner(s)
+					if !dark[b.own[k]] && after != b.own[k] {
+						c.Fail("minimal-disruption", "disruption/mark-unhealthy/dark-peers", "node %q: with peers %q and %q dark and marked unhealthy, subscriber %q moved from %q to %q although neither of them owned it", b.nd.id, x.id, y.id, s, b.own[k], after)
+					}
+					if dark[after] {
+						c.Fail("minimal-disruption", "disruption/unhealthy-peer-still-addressed", "node %q: peer %q is marked unhealthy, yet requests for %q still go to it", b.nd.id, after, s)
+					}
+				}
+				c.OpsDone++
+				c.S.Probe("darklaw_checked")
+			}
+			n.HealAll()
 		case "part":
 			a, b := pick(op.Arg(0)), pick(op.Arg(1))
 			if a != b {
